@@ -437,6 +437,7 @@ func (p *parseVisitor) VisitSaveFromAccount(c *parser2.SaveFromAccountContext) *
 			return LogicError(c, fmt.Errorf(
 				"save monetary all from account: the first expression should be of type 'asset' instead of '%s'", typ))
 		}
+		p.PushAddress(*addr)
 	} else if mon := c.GetMon(); mon != nil {
 		typ, addr, compErr = p.VisitExpr(mon, false)
 		if compErr != nil {
@@ -446,8 +447,11 @@ func (p *parseVisitor) VisitSaveFromAccount(c *parser2.SaveFromAccountContext) *
 			return LogicError(c, fmt.Errorf(
 				"save monetary from account: the first expression should be of type 'monetary' instead of '%s'", typ))
 		}
+		// evaluate the whole expression, not only its left-most operand
+		if _, _, compErr = p.VisitExpr(mon, true); compErr != nil {
+			return compErr
+		}
 	}
-	p.PushAddress(*addr)
 	monAddr := addr
 
 	typ, addr, compErr = p.VisitExpr(c.GetAcc(), false)
